@@ -264,7 +264,8 @@ def expand (fn : Fn) (o : Opts) : List String → Option (List Step)
     branch, `persist` is one of the two store calls of `session.persist` -/
 def expandPrep (persistSkel : List String) (o : Opts) : List String → Option (List Step)
   | ["readSeq", "storeReset", "readSeq", "persist"] =>
-      if persistSkel = ["storeSaveIncr", "storeIncrSender"] then
+      -- (the two store calls are the two branches of one `if`: which of them is written first is a matter of style)
+      if persistSkel = ["storeSaveIncr", "storeIncrSender"] ∨ persistSkel = ["storeIncrSender", "storeSaveIncr"] then
         some ([Step.readSeq] ++ (if o.reset then [Step.storeReset, Step.readSeq] else []) ++
               [if o.persist then Step.persistIncr else Step.incrOnly])
       else none
